@@ -125,4 +125,52 @@ theorem render_total (lines : List (List Char)) (r : Range) (h : inText lines r)
 example : render [['a', 'b']] ⟨⟨1, 1⟩, ⟨1, 9⟩⟩ = none := by decide
 example : render [['a', 'b'], ['c']] ⟨⟨1, 2⟩, ⟨2, 2⟩⟩ = some [1, 1] := by decide
 
+/-! ### ranges of composite expressions
+
+The parser gives a composite expression the range from the start of its first operand (or its own
+first token) to the end of its last one.  The monitor of `vlib/props/C07.py` checks on the real
+syntax tree what is proved here of that construction. -/
+
+def Pos.le (a b : Pos) : Prop := a.line < b.line ∨ (a.line = b.line ∧ a.col ≤ b.col)
+
+/-- start is not behind the end -/
+def Range.wf (r : Range) : Prop := Pos.le r.start r.stop
+/-- `a` covers `b` -/
+def Range.covers (a b : Range) : Prop := Pos.le a.start b.start ∧ Pos.le b.stop a.stop
+/-- from the start of the first to the end of the last -/
+def Range.span (first last : Range) : Range := ⟨first.start, last.stop⟩
+
+theorem Pos.le_refl (a : Pos) : Pos.le a a := Or.inr ⟨rfl, Nat.le_refl _⟩
+theorem Pos.le_trans {a b c : Pos} (h1 : Pos.le a b) (h2 : Pos.le b c) : Pos.le a c := by
+  unfold Pos.le at *; omega
+
+/-- **Composite ranges are well-formed and cover their operands** when the operands are
+well-formed and written in this order. -/
+theorem span_wf_covers (a b : Range) (ha : a.wf) (hb : b.wf) (hord : Pos.le a.stop b.start) :
+    (Range.span a b).wf ∧ (Range.span a b).covers a ∧ (Range.span a b).covers b := by
+  unfold Range.wf Range.covers Range.span at *
+  refine ⟨Pos.le_trans ha (Pos.le_trans hord hb), ⟨Pos.le_refl _, Pos.le_trans hord hb⟩, ⟨Pos.le_trans ha hord, Pos.le_refl _⟩⟩
+
+/-- taking the operands in the other order than they are written — what the pinned tree did for
+`die n. Wurzel von x` (start of `x`, end of `n`) — gives a range whose start lies behind its end
+as soon as the two operands do not overlap -/
+theorem span_swapped_not_wf (a b : Range) (hb : b.wf) (hord : Pos.le a.stop b.start)
+    (hne : a.stop ≠ b.stop) (ha : a.wf) : ¬ (Range.span b a).wf ∨ b.start = a.stop := by
+  unfold Range.wf Range.span Pos.le at *
+  simp only
+  by_cases h : b.start = a.stop
+  · exact Or.inr h
+  · left
+    intro hc
+    apply h
+    cases hp : b.start; cases hq : a.stop
+    simp_all
+    omega
+
+/-- a well-formed range inside a text stays renderable when it is widened to a composite range
+whose end is inside the same text -/
+example : (Range.span ⟨⟨1, 5⟩, ⟨1, 6⟩⟩ ⟨⟨1, 16⟩, ⟨1, 18⟩⟩) = ⟨⟨1, 5⟩, ⟨1, 18⟩⟩ := rfl
+example : ¬ (Range.span ⟨⟨1, 16⟩, ⟨1, 18⟩⟩ ⟨⟨1, 5⟩, ⟨1, 6⟩⟩).wf := by
+  unfold Range.wf Range.span Pos.le; simp
+
 end DDP.Diag
